@@ -84,7 +84,11 @@ class FileNamesResolverForGlobPattern(FileNamesResolver):
         self.pattern = pattern
 
     def resolve(self, environment: instruction.Environment) -> List[Path]:
-        paths = environment.suite_file_dir_path.glob(self.pattern)
+        try:
+            paths = sorted(environment.suite_file_dir_path.glob(self.pattern))
+        except (ValueError, NotImplementedError) as ex:
+            raise FileNotAccessibleSimpleError(Path(self.pattern),
+                                               'Invalid glob pattern: ' + str(ex))
         return sorted([
             self.path_resolver(path)
             for path in paths
